@@ -118,8 +118,15 @@ static void check_case(const struct rimpl *im, int vects, int len, int pl, int c
 	}
 	ref_pq(v, nsrc, len, v[nsrc], npar == 2 ? v[nsrc + 1] : NULL);
 	int r = -999;
+	/* a check only reads: for the first call every block (data and parity) and the pointer array are write-protected */
+	for (int i = 0; i < vects; i++)
+		g_readonly(v[i], 1);
+	if (vects > 0)
+		g_readonly(arr, 1);
 	if (V_TRY()) {
 		r = (int)PCALL(im->f, vects, len, arr);
+		for (int i = 0; i < vects; i++)
+			g_readonly(v[i], 0);
 		v_eval();
 		if (r != 0) {
 			snprintf(key, sizeof key, "%s false-alarm vects=%d len=%d pl=%d", im->name, vects, len, pl);
